@@ -94,6 +94,12 @@ def run_case(case):
             qs = gen.gen_queries(rng, sig, conds, 5, depth=3)
             if fam == 'd4':
                 qs[0] = gen.D4_QUERY
+            elif rng.random() < 0.15:
+                # atoms spelled like Boolean constants of the solver layer are ordinary atoms
+                m = dict(zip(sig, rng.sample(['true', 'false', 'top', 'True', 'ite', 'and'], min(len(sig), 2)) + list(sig)[2:]))
+                sig = [m[a] for a in sig]
+                conds = [(fml.rename(B, m), fml.rename(A, m)) for (B, A) in conds]
+                qs = [(fml.rename(B, m), fml.rename(A, m)) for (B, A) in qs]
             plan = [('system-w', eng), ('lex_inf', eng), ('system-w', 'z3'), ('lex_inf', 'z3')]
             if not weakly and len(conds) <= 5:
                 plan.append(('c-inference', eng))
